@@ -30,10 +30,11 @@ def r1_census(ctx):
                 "unwrap/expect/panic/unreachable, indexing call, bounds/division assert and usize subtraction is discharged automatically or within "
                 "its reviewed per-(function, kind) ceiling")
     F = ctx.facts
-    roots, reach = runtime_reach(F)
-    ctx.floor(R, "runtime entry points", len(roots), 25)
-    ctx.floor(R, "functions on the runtime paths", len(reach), 300)
-    census.run_census(ctx, R, reach, "c15.json")
+    with F.raw_mode():
+        roots, reach = runtime_reach(F)
+        ctx.floor(R, "runtime entry points", len(roots), 25)
+        ctx.floor(R, "functions on the runtime paths", len(reach), 300)
+        census.run_census(ctx, R, reach, "c15.json")
 
 
 def r2_error_writes(ctx):
@@ -106,14 +107,15 @@ def r3_fatal_errors(ctx):
     ctx.rule(R, "fatal-error census: every EnvironmentError constructed on the runtime paths (each can end the worker loop or the environment step) "
                 "is within the reviewed per-(function, variant) ceiling, with the reason a Quiver PROGRAM cannot trigger it")
     F = ctx.facts
-    _roots, reach = runtime_reach(F)
     path = os.path.join(VERIF, "rules", "tables", "c15_fatal.json")
     table = json.load(open(path)) if os.path.exists(path) else {"fatal": {}}
     found = defaultdict(list)
-    for k in sorted(reach):
-        b = F.body(k)
-        for bi, si, s in agg_sites(b, "environment::EnvironmentError"):
-            found[(k.split("::{closure")[0], s["rv"]["variant"])].append(b.loc(bi, si))
+    with F.raw_mode():
+        _roots, reach = runtime_reach(F)
+        for k in sorted(reach):
+            b = F.body(k)
+            for bi, si, s in agg_sites(b, "environment::EnvironmentError"):
+                found[(k.split("::{closure")[0], s["rv"]["variant"])].append(b.loc(bi, si))
     WHYV = {
         "WorkerCommunication": "channel to a worker closed: host shutdown, not program behaviour",
         "ChannelDisconnected": "channel closed: host shutdown",
@@ -137,18 +139,11 @@ def r3_fatal_errors(ctx):
             tbl["fatal"]["%s|%s" % (k, v)] = {"ceiling": len(locs), "why": WHYV.get(v, "reviewed")}
         json.dump(tbl, open(path, "w"), indent=1)
         return
-    n = 0
-    for (k, v), locs in sorted(found.items()):
-        n += len(locs)
-        tk = "%s|%s" % (k, v)
-        ent = table["fatal"].get(tk)
-        if ent is None:
-            ctx.violated(R, tk, "EnvironmentError::%s is constructed on a runtime path and is not in the reviewed table: if a program can reach it, the worker "
-                                "loop ends and every other process hangs" % v, locs[0])
-        elif len(locs) > ent["ceiling"]:
-            ctx.violated(R, tk, "%d constructions of EnvironmentError::%s, reviewed ceiling %d" % (len(locs), v, ent["ceiling"]), locs[-1])
-        else:
-            ctx.exception(R, tk, "%d/%d: %s" % (len(locs), ent["ceiling"], ent["why"]), locs[0])
+    n = sum(len(v) for v in found.values())
+    census.reconcile(ctx, R, {k: [(loc, None) for loc in locs] for k, locs in found.items()}, table["fatal"],
+                     "EnvironmentError::%s is constructed on a runtime path and is not in the reviewed table: if a program can reach it, the worker loop ends "
+                     "and every other process hangs",
+                     "%d constructions of EnvironmentError::%s, reviewed ceiling %d (%s)")
     ctx.floor(R, "EnvironmentError constructions on runtime paths", n, 30)
 
 
